@@ -43,6 +43,19 @@ func runC08(c *core.Ctx) {
 	// Mark(e, r) with a reference of arbitrary chain length
 	if len(w.Refs) > 0 {
 		r := w.Refs[c.R.Intn(len(w.Refs))]
+		// half of the time: a reference that e ALREADY matches (Mark must still add the mark)
+		if c.R.Intn(2) == 0 {
+			var posRefs []Ref
+			for _, x := range w.Refs {
+				if ok, p := safeIs(e, x.Err); p == nil && ok && x.Origin != "self" {
+					posRefs = append(posRefs, x)
+				}
+			}
+			if len(posRefs) > 0 {
+				r = posRefs[c.R.Intn(len(posRefs))]
+				c.Count("mark-with-already-matching-reference", 1)
+			}
+		}
 		var me error
 		if p := core.Try(func() { me = errors.Mark(e, r.Err) }); p != nil {
 			c.Violate("mark-panic", "Mark panicked", fmt.Sprintf("%s\nref %T: %v", t, r.Err, p))
